@@ -1,3 +1,4 @@
+mod framebuild;
 mod pduloop;
 mod rng;
 mod vsched;
@@ -27,6 +28,8 @@ fn main() {
                 &args[7],
             )
         }
+        "framebuild-replay" => framebuild::replay(&args[2], &args[3], args[4].parse().unwrap()),
+        "framebuild-random" => framebuild::random(args[2].parse().unwrap(), args[3].parse().unwrap(), &args[4]),
         _ => usage(),
     };
     if let Err(e) = r {
